@@ -8,6 +8,7 @@ import (
 	"go/token"
 	"go/types"
 	"sort"
+	"strings"
 
 	"golang.org/x/tools/go/ssa"
 )
@@ -171,6 +172,100 @@ func widthOfArg(v ssa.Value, at *ssa.BasicBlock) int {
 	return w
 }
 
+// widthSetOf: the possible byte lengths of a byte-sequence value built in this function: constants, arrays, fixed
+// re-slices, a parameter whose length a dominating test pins, and slices grown with append /
+// binary.{Big,Little}Endian.AppendUintN from an empty make (the chain is followed through phis). nil = unknown.
+func widthSetOf(v ssa.Value, at *ssa.BasicBlock, depth int) map[int]bool {
+	if depth > 12 {
+		return nil
+	}
+	if w := widthOfArg(v, at); w >= 0 {
+		return map[int]bool{w: true}
+	}
+	for {
+		ct, ok := v.(*ssa.ChangeType)
+		if !ok {
+			break
+		}
+		v = ct.X
+	}
+	add := func(a, b map[int]bool) map[int]bool {
+		if a == nil || b == nil {
+			return nil
+		}
+		out := map[int]bool{}
+		for x := range a {
+			for y := range b {
+				out[x+y] = true
+			}
+		}
+		if len(out) > 64 {
+			return nil
+		}
+		return out
+	}
+	switch x := v.(type) {
+	case *ssa.MakeSlice:
+		if k, ok := constInt(x.Len); ok {
+			return map[int]bool{int(k): true}
+		}
+	case *ssa.Phi:
+		out := map[int]bool{}
+		for i, e := range x.Edges {
+			if e == ssa.Value(x) {
+				continue
+			}
+			s := widthSetOf(e, x.Block().Preds[i], depth+1)
+			if s == nil {
+				return nil
+			}
+			for w := range s {
+				out[w] = true
+			}
+		}
+		return out
+	case *ssa.Slice:
+		// v[:] of something known
+		if x.Low == nil && x.High == nil {
+			return widthSetOf(x.X, at, depth+1)
+		}
+		if x.High != nil {
+			if k, ok := constInt(x.High); ok {
+				lo := int64(0)
+				if x.Low != nil {
+					l, ok := constInt(x.Low)
+					if !ok {
+						return nil
+					}
+					lo = l
+				}
+				return map[int]bool{int(k - lo): true}
+			}
+		}
+	case *ssa.Call:
+		if bi, ok := x.Call.Value.(*ssa.Builtin); ok && bi.Name() == "append" && len(x.Call.Args) == 2 {
+			base := widthSetOf(x.Call.Args[0], x.Block(), depth+1)
+			return add(base, widthSetOf(x.Call.Args[1], x.Block(), depth+1))
+		}
+		if f := calleeOf(x.Common()); f != nil && f.Pkg() != nil && f.Pkg().Path() == "encoding/binary" && strings.HasPrefix(f.Name(), "AppendUint") {
+			n := 0
+			switch f.Name() {
+			case "AppendUint16":
+				n = 2
+			case "AppendUint32":
+				n = 4
+			case "AppendUint64":
+				n = 8
+			}
+			args := x.Call.Args
+			if n > 0 && len(args) >= 2 {
+				return add(widthSetOf(args[len(args)-2], x.Block(), depth+1), map[int]bool{n: true})
+			}
+		}
+	}
+	return nil
+}
+
 // writeWidth classifies a call as a write of n bytes into the target writer (-1 unknown, -2 not a write to the target).
 func writeWidth(c *Ctx, ci ssa.CallInstruction, isTarget func(ssa.Value) bool, depth int) int {
 	cc := ci.Common()
@@ -213,7 +308,17 @@ func writeWidth(c *Ctx, ci ssa.CallInstruction, isTarget func(ssa.Value) bool, d
 	switch name {
 	case "Write", "WriteString":
 		if len(args) == 1 {
-			return widthOfArg(args[0], ci.Block())
+			if w := widthOfArg(args[0], ci.Block()); w >= 0 {
+				return w
+			}
+			if ws := widthSetOf(args[0], ci.Block(), 0); len(ws) == 1 {
+				for w := range ws {
+					return w
+				}
+			} else if len(ws) > 1 {
+				return -3 // several possible widths: see writeWidthSet
+			}
+			return -1
 		}
 	case "WriteByte":
 		return 1
@@ -221,6 +326,26 @@ func writeWidth(c *Ctx, ci ssa.CallInstruction, isTarget func(ssa.Value) bool, d
 		return -2
 	}
 	return -2
+}
+
+// writeWidthSet: like writeWidth, but a write whose argument can have several lengths (a slice assembled on several
+// paths) yields the whole set. ok=false: not a write to the target.
+func writeWidthSet(c *Ctx, ci ssa.CallInstruction, isTarget func(ssa.Value) bool, depth int) (map[int]bool, bool) {
+	w := writeWidth(c, ci, isTarget, depth)
+	switch {
+	case w == -2:
+		return nil, false
+	case w == -3:
+		cc := ci.Common()
+		args := cc.Args
+		if !cc.IsInvoke() && len(args) > 0 {
+			args = args[1:]
+		}
+		return widthSetOf(args[0], ci.Block(), 0), true
+	case w < 0:
+		return nil, true
+	}
+	return map[int]bool{w: true}, true
 }
 
 // writeTotals: the set of possible total byte counts written to the target writer when fn returns (-1 if some write is of unknown width).
@@ -244,16 +369,18 @@ func writeTotals(c *Ctx, fn *ssa.Function, isTarget func(ssa.Value) bool, depth 
 				if !ok {
 					continue
 				}
-				w := writeWidth(c, ci, isTarget, depth)
-				if w == -2 {
+				ws, isW := writeWidthSet(c, ci, isTarget, depth)
+				if !isW {
 					continue
 				}
 				next := map[int]bool{}
 				for t := range out {
-					if w < 0 || t < 0 {
+					if ws == nil || t < 0 {
 						next[-1] = true
 					} else {
-						next[t+w] = true
+						for w := range ws {
+							next[t+w] = true
+						}
 					}
 				}
 				out = next
@@ -295,16 +422,18 @@ func writeTotals(c *Ctx, fn *ssa.Function, isTarget func(ssa.Value) bool, depth 
 			if !ok {
 				continue
 			}
-			w := writeWidth(c, ci, isTarget, depth)
-			if w == -2 {
+			ws, isW := writeWidthSet(c, ci, isTarget, depth)
+			if !isW {
 				continue
 			}
 			next := map[int]bool{}
 			for t := range out {
-				if w < 0 || t < 0 {
+				if ws == nil || t < 0 {
 					next[-1] = true
 				} else {
-					next[t+w] = true
+					for w := range ws {
+						next[t+w] = true
+					}
 				}
 			}
 			out = next
